@@ -679,3 +679,76 @@ class MJoin(Monitor):
 
     def state(self):
         return [sorted(self.outstanding.items()), sorted(self.flagged)]
+
+# ------------------------------------------------------------------------------------------------------
+class MCrash(Monitor):
+    """C04: after a crash + restart every started execution still reaches a terminal status; for a crash between two
+    steps the outcome equals the crash-free one, no correlation id is requested twice."""
+    name = "M-crash"
+    def __init__(self, scenario):
+        super().__init__()
+        self.expect = scenario.get("expect") or {}
+        self.preserve = scenario.get("preserve_outcome", True)
+        self.running = set()
+        self.term = {}
+        self.cids = {}
+        self.flagged = set()
+        self.redelivered_events = set()
+        self.requested = set()
+        self.orphan_dropped = set()
+        self.reply_consumed = set()
+    def on_note(self, w, note):
+        d = (note["body"] or {}).get("detail") or {}
+        arn, st = d.get("executionArn"), d.get("status")
+        if st == "RUNNING":
+            self.running.add(arn)
+        elif st in TERMINAL:
+            self.term.setdefault(arn, []).append([st, d.get("output"), d.get("error")])
+    def on_op(self, w, op):
+        if op["op"] == "deliver" and op.get("redelivered") and op.get("arn") and op.get("queue", "").startswith("asl_workflow_events"):
+            self.redelivered_events.add(op.get("message_id"))
+        if op["op"] == "publish" and op.get("routing_key") in w.workers:
+            self.requested.add((op.get("correlation_id") or "").split(".")[0])
+        if op["op"] == "ack" and op.get("site") and "log_and_acknowledge_orphaned_responses" in op["site"][1]:
+            self.orphan_dropped.add((op.get("correlation_id") or "").split(".")[0])
+        elif op["op"] == "ack" and op.get("queue", "").startswith("asl_workflow_reply_to"):
+            self.reply_consumed.add((op.get("correlation_id") or "").split(".")[0])
+        if op["op"] == "worker_take":
+            cid = op.get("correlation_id")
+            self.requested.add((cid or "").split(".")[0])
+            self.cids[cid] = self.cids.get(cid, 0) + 1
+            if self.cids[cid] > 1 and cid not in self.flagged:
+                self.flagged.add(cid)
+                self.flag(w, "request_sent_again", "the request with correlation id of one task event reached worker %s %d times" % (op.get("queue"), self.cids[cid]),
+                          None, None, queue=op.get("queue"))
+    def at_quiescence(self, w):
+        for arn in sorted(self.running | set(w.started)):
+            ts = self.term.get(arn, [])
+            if not ts:
+                self.flag(w, "execution_lost", "started execution never reached a terminal status after the crash", arn)
+                continue
+            if self.preserve and arn in self.expect and self.expect[arn].get("status"):
+                ex = self.expect[arn]
+                st, out, err = ts[-1]
+                ok = st == ex["status"]
+                if ok and st == "SUCCEEDED":
+                    try:
+                        ok = _loose_eq(json.loads(out), ex.get("output"))
+                    except Exception:
+                        ok = False
+                elif ok:
+                    ok = err == ex.get("error")
+                if not ok:
+                    # diagnosis (facts from the op log, used to tell root causes apart)
+                    if self.orphan_dropped & self.requested:
+                        what = "reply-to-a-sent-request-dropped-as-orphan"
+                    elif err == "States.Timeout" and any(m in self.reply_consumed for m in self.redelivered_events):
+                        what = "redelivered-task-event-whose-reply-was-already-consumed"
+                    elif err == "States.Timeout" and any(m not in self.requested for m in self.redelivered_events):
+                        what = "redelivered-event-whose-request-was-never-sent"
+                    else:
+                        what = "other"
+                    self.flag(w, "outcome_changed", "[%s] " % what + "after crash+restart the execution ended %s output=%r error=%r; without the crash %s output=%r error=%r" % (
+                        st, out, err, ex["status"], ex.get("output"), ex.get("error")), arn, None, first=ex["status"], second=st, error=str(err), what=what)
+    def state(self):
+        return [sorted(self.running), sorted(self.term.items()), sorted(self.cids.items())]
